@@ -42,6 +42,8 @@ func runC04(w *World) *Result {
 		c04Immediate(w, b, r)
 		AllocRule(w, b, r, "R-C04-instance")
 	}
+	r.Rule("R-C04-accessor", "two accessors of one node that the driver evaluates never hand out the same operand: an accessor with a fallback is called only where a boolean accessor has excluded the fallback case", 1)
+	AccessorAliasRule(w, r, "R-C04-accessor")
 	return r
 }
 
